@@ -210,7 +210,7 @@ def run(ctx):
     for name, e in corpus().items():
         progs.append((name, e, G.to_sx(e), {"source": "corpus"}))
     base = rng.getrandbits(48)
-    n = ctx.n(230, 2600)
+    n = ctx.n(220, 1000)
     feats = {}
     for i in range(n):
         prng = random.Random(base + i)
